@@ -80,6 +80,41 @@ def r04_16(chk, cr):
     app = [e for e in ev.events if e.kind == "call" and e.target is not None and e.target.key().endswith(".append")
            and "uc_edges" in e.target.key()]
     chk.need(len(app) == 2, f"{q}: expected two edge-append sites (in-cell and neighbour-cell)")
+    if chk.want("R04.1"):
+        # candidate pairs: the distance cut-off of the pair enumeration must not be below the largest bonding threshold r_i + r_j + tolerance
+        # (2 max(r) + tolerance), and the neighbour images must come from all 26 surrounding cells (-1 .. 1 on every axis)
+        tol = P.name(ev.param_names[1])
+        mc = [v for k, v in ev.defs.items() if k[0] == "local" and k[1] == "max_cov"]
+        mc_ok = bool(mc) and mc[0].key() in ("numpy.max($covalent_radii)", "$covalent_radii.max()", "max($covalent_radii)", "numpy.amax($covalent_radii)")
+        MC = P.atom(("local", "max_cov", 0))
+        for e0 in ev.events:
+            if e0.kind != "call" or call_name(e0.value.as_atom() or ()) != ".sparse_distance_matrix":
+                continue
+            kw = dict(e0.extra["kwargs"])
+            md = kw.get("max_distance") or (e0.extra["args"][1] if len(e0.extra["args"]) > 1 else None)
+            okmd = False
+            if md is not None and mc_ok:
+                rest = md - 2 * MC - tol
+                # k * max_cov + c extra with k >= 0, c >= 0
+                if rest.const_value() is not None:
+                    okmd = rest.const_value() >= 0
+                elif rest.is_poly():
+                    extra_k = (rest.subs({MC.as_atom(): P.const(1)}) - rest.subs({MC.as_atom(): P.const(0)})).const_value()
+                    extra_c = rest.subs({MC.as_atom(): P.const(0)}).const_value()
+                    okmd = extra_k is not None and extra_c is not None and extra_k >= 0 and extra_c >= 0 and (rest - extra_k * MC - extra_c).is_zero()
+            chk.ob("R04.1", CR, q, "the pair enumeration reaches every possible bond: its cut-off is at least 2 max(covalent radius) + tolerance, the "
+                   "largest value the bonding threshold r_i + r_j + tolerance can take", okmd, node=e0.node,
+                   fingerprint=f"cutoff:{str(e0.target)[:20]}", expected="max_distance = 2 * max(covalent_radii) + tolerance", found=str(md))
+        for e0 in ev.events:
+            if e0.kind == "call" and call_name(e0.value.as_atom() or ()) == ".slab":
+                b = dict(e0.extra["kwargs"]).get("bounds") or (e0.extra["args"][0] if e0.extra["args"] else None)
+                it = seq_items(b) if b is not None else None
+                lo = seq_items(it[0]) if it and len(it) == 2 else None
+                hi = seq_items(it[1]) if it and len(it) == 2 else None
+                okb = bool(lo and hi and len(lo) == 3 and len(hi) == 3 and all(x.const_value() is not None and x.const_value() <= -1 for x in lo)
+                           and all(x.const_value() is not None and x.const_value() >= 1 for x in hi))
+                chk.ob("R04.1", CR, q, "neighbour images are taken from all surrounding cells: the slab covers -1 .. 1 on every axis (a bond can cross any face, "
+                       "edge or corner of the cell)", okb, node=e0.node, fingerprint="neighbour-cells", expected="bounds=((-1, -1, -1), (1, 1, 1))", found=str(b))
     preds = []
     for e in app:
         tup = seq_items(e.extra["args"][0])
@@ -245,6 +280,25 @@ def r04_mol(chk, cr):
     mol = defs.get("mol")
     chk.need(mol is not None and call_name(mol.as_atom() or ()) and "from_arrays" in call_name(mol.as_atom()), f"{q}: Molecule.from_arrays call not found")
     kw = dict(mol.as_atom()[3]) if len(mol.as_atom()) > 3 else {}
+    if chk.want("R04.1"):
+        # the image of an atom is its unit-cell site PLUS the accumulated cell shift (the shifts were accumulated with the sign of the
+        # stored edge offsets; subtracting them puts every bonded neighbour on the wrong side)
+        pv = kw.get("positions")
+        sums = []
+        if pv is not None:
+            for a in find_atoms(pv, lambda a: a[0] == "call" and call_name(a) == ".to_cartesian" and a[2]):
+                t = a[2][0]
+                ta = t.as_atom()
+                while ta and ta[0] == "sub":
+                    t = ta[1]
+                    ta = t.as_atom()
+                sums.append(t)
+        oksum = False
+        if len(sums) == 1 and sums[0].is_poly() and len(sums[0].n) == 2 and all(c == 1 and len(m) == 1 and m[0][1] == 1 for m, c in sums[0].n.items()):
+            keys = [P.atom(m[0][0]).key() for m in sums[0].n]
+            oksum = any("frac_pos" in k_ for k_ in keys) and any("shifts" in k_ for k_ in keys)
+        chk.ob("R04.1", CR, q, "an atom's position in the molecule is its unit-cell fractional position plus its accumulated cell shift", oksum,
+               fingerprint="site-plus-shift", expected="to_cartesian((uc_frac + shifts)[nodes])", found=str(sums[0])[:120] if sums else None)
     if chk.want("R04.2"):
         per_atom = ["elements", "positions", "unit_cell_atoms", "asymmetric_unit_atoms", "asymmetric_unit_labels", "generator_symop"]
         roots = {"elements": "$uc_dict['element']", "asymmetric_unit_atoms": "$uc_dict['asym_atom']",
